@@ -91,4 +91,9 @@ TEXT = {
         "level": "Generated search: 2500 listener probes + 300 end-to-end exchanges quick, 10x per shard thorough. Exploration.",
         "note": "Mock keys (all-zero host-host key) stand for DRKey; 'wrong key' is represented by mutated MACs/covered bytes. scionproto slayers/spao are trusted. EPIC paths and the panic-inducing inputs (P9) are outside this generator (C08). Found and repaired: replies to one-hop-path requests carried the wrong path type (5d5f48f); MeasureClockOffsetSCION reported offset 0 without error when every path failed (3b20f61).",
     },
+    "C15": {
+        "technique": "property-based testing with scripted randomness (crypto/rand.Reader replaced by rapid-drawn words): pointwise characterisation of RandIntn, validity of Sample via replay of its pick calls, exhaustive enumeration of all draw tuples for 0<=k<=n<=7 (exact uniformity over subsets); rapid state machine over multipath measurement rounds of the real SCION clients against per-path harness time servers",
+        "level": "Generated search (10^5 RandIntn cases, 3*10^4 Sample cases, ~1500 measurement rounds quick) plus a complete enumeration of the small-size sample space. Exploration with an exhaustive sub-check.",
+        "note": "Uniformity for large n is argued from the pointwise RandIntn characterisation (result = word mod n, only words <= 2^32 mod n rejected) plus the exhaustive small cases, not measured statistically. Duplicate fingerprints are not generated. Found and repaired: all-paths-failed round returned offset 0 without error (3b20f61).",
+    },
 }
